@@ -9,6 +9,7 @@ import (
 
 	"verif/mc/bind"
 	"verif/mc/core"
+	"verif/mc/env"
 	"verif/mc/spec"
 )
 
@@ -21,7 +22,7 @@ func init() {
 		Level: "exploration",
 		Rule: "String, Dump, WellFormed and WriteTo(discard) are called, under a step budget on the statement-instrumented build ('never block' is decided by the budget, not by a clock), on: (1) the zero value and the constructor value of every exported packet type, TopicFilter, UserProp(erties), Malformed; (2) every state visited by C12's breadth-first search over setter histories (same bounds); (3) every packet accepted by the decoder from C04's raw input families F1-F5 (malformed-but-accepted packets); " +
 			"(4) exhaustively all 256 values of every rendered byte: first byte (256 headers), CONNECT flags and CONNACK flags (frames carrying each flag byte with a body consistent with it), the reason code in each of the 9 packet types that render one plus SUBACK/UNSUBACK lists, subscription options, ReasonCode(b).String(), TopicFilter.String(). " +
-			"Oracle: no panic, budget not exceeded, String() non-empty. distinct_nontrivial = distinct rendered packet values (hash of state path / input bytes).",
+			"Dump is also given writers that refuse everything with each kind of error (io.ErrShortWrite, io.EOF, ... themselves, a temporary net error, an unhashable error value) and one that takes a byte per call. Oracle: no panic, budget not exceeded, String() non-empty. distinct_nontrivial = distinct rendered packet values (hash of state path / input bytes).",
 		Assumptions: []string{"a writer that blocks is outside the property; Dump is given an in-memory writer"},
 		SingleThread: true,
 		Run:          runC19,
@@ -51,6 +52,15 @@ func renderAll(q any, size int) (what string, res callResult) {
 		if !step("Dump", func() { mq.Dump(io.Discard, p) }) {
 			return
 		}
+		// Dump must return whatever the writer does: writers that refuse
+		// everything with each kind of error (sentinels of package io
+		// themselves among them), and one that takes a byte at a time
+		for _, w := range dumpWriters() {
+			w := w
+			if !step("Dump to "+w.name, func() { mq.Dump(w.w(), p) }) {
+				return
+			}
+		}
 		if _, isU := p.(*mq.Undefined); !isU {
 			if !step("WriteTo", func() { p.WriteTo(io.Discard) }) {
 				return
@@ -70,6 +80,33 @@ func renderAll(q any, size int) (what string, res callResult) {
 		step("Error", func() { _ = e.Error() })
 	}
 	return "", res
+}
+
+type dumpWriter struct {
+	name string
+	w    func() io.Writer
+}
+
+type refusingWriter struct{ err error }
+
+func (r refusingWriter) Write(p []byte) (int, error) { return 0, r.err }
+
+type oneByteWriter struct{}
+
+func (oneByteWriter) Write(p []byte) (int, error) {
+	if len(p) <= 1 {
+		return len(p), nil
+	}
+	return 1, io.ErrShortWrite
+}
+
+func dumpWriters() []dumpWriter {
+	ws := []dumpWriter{{"a writer that takes one byte per call", func() io.Writer { return oneByteWriter{} }}}
+	for _, e := range []error{io.ErrShortWrite, io.EOF, io.ErrUnexpectedEOF, io.ErrClosedPipe, io.ErrNoProgress, env.NewError(env.ENetTemporary, "D"), env.NewError(env.EPlain, "D"), env.NewError(env.EUnhashable, "D")} {
+		e := e
+		ws = append(ws, dumpWriter{"a writer that always returns (0, " + e.Error() + ")", func() io.Writer { return refusingWriter{e} }})
+	}
+	return ws
 }
 
 func c19Finding(desc string, q any, size int) *core.Finding {
